@@ -9,6 +9,7 @@ import Spydr.Edif.LemmasPins
 import Spydr.Edif.LemmasCell
 import Spydr.Edif.LemmasNet
 import Spydr.Edif.LemmasView
+import Spydr.Edif.LemmasClean
 namespace Spydr.Edif.C03
 open Spydr.Edif
 
@@ -87,19 +88,21 @@ theorem edif_roundtrip (n : CNetlist) (prog ver : Option Str) (t : CInst) (li di
     ∃ e n', toSExp [y, mo, d, h, mi, s] n = .ok e ∧ ofSExp e = .ok n' ∧ view03 n' = view03 n :=
   edif_roundtrip_view n prog ver t li di y mo d h mi s hwf h0
 
-/-- … from characters: the text laid out by the model writer is read back — through the tokenizer
-    and the s-expression reader — with the same view, under the DECIDABLE hypothesis that the emitted
-    expression is clean (`cleanB`: atoms are plain words or strings without quote / line break).  The
-    driver evaluates `cleanB` for every text it writes and the harness checks the flag on every case.
-    (That `WFNet` implies it — identifiers are `[0-9A-Za-z_&]`, strings printable without a double
-    quote — is a structural induction over the writer that is not written down.) -/
+/-- **edif_roundtrip_text** (FULL, from characters): for every netlist inside the quantifier (and whose
+    property identifiers contain no delimiter — they are EDIF identifiers) the TEXT the model writer
+    lays out is accepted by the model reader — tokenizer `lexE`, s-expression reader `readS`, `ofSExp` —
+    and the netlist read back has the same C03 view.  "The file written is always accepted by the
+    reader." -/
 theorem edif_roundtrip_text (n : CNetlist) (prog ver : Option Str) (t : CInst) (li di : Nat)
-    (y mo d h mi s : Nat) (hwf : WFNet n prog ver t li di) (h0 : ScalarLower0 n)
-    (hclean : ∀ e, toSExp [y, mo, d, h, mi, s] n = .ok e → e.cleanB = true) :
+    (y mo d h mi s : Nat) (hwf : WFNet n prog ver t li di) (h0 : ScalarLower0 n) (hpl : NetPropsPlain n) :
     ∃ text n', composeE [y, mo, d, h, mi, s] n = .ok text ∧ readEdif text = .ok n' ∧ view03 n' = view03 n := by
   obtain ⟨e, n', hw, hr, hv⟩ := edif_roundtrip n prog ver t li di y mo d h mi s hwf h0
+  have hc := toSExp_clean n prog ver t li di y mo d h mi s hwf hpl e hw
   refine ⟨layoutE e, n', by simp [composeE, hw, bind, Except.bind, pure, Except.pure], ?_, hv⟩
-  simp [readEdif, Spydr.Edif.read_lex_layout e (cleanB_sound e (hclean e hw)), hr]
+  simp [readEdif, Spydr.Edif.read_lex_layout e hc, hr]
+
+/-- the decidable form of the cleanliness hypothesis the driver reports (`cleanB`) is sound -/
+theorem cleanB_sound (e : SExp) (h : e.cleanB = true) : e.clean := Spydr.Edif.cleanB_sound e h
 
 /-- the closed form behind it: the netlist read back, under the explicit chain of resolution
     hypotheses `NetOK` (which `WFNet` implies, `netOK_of_wf`) -/
@@ -383,13 +386,20 @@ theorem n0_scalar : ScalarLower0 n0 := by
 example : ∃ e n', toSExp [2026, 9, 27, 8, 5, 3] n0 = .ok e ∧ ofSExp e = .ok n' ∧ view03 n' = view03 n0 :=
   edif_roundtrip n0 none none _ 0 1 2026 9 27 8 5 3 n0_WFNet n0_scalar
 
-/-- the decidable hypothesis holds for it, so the round trip holds from characters -/
-example : ∃ text n', composeE [2026, 9, 27, 8, 5, 3] n0 = .ok text ∧ readEdif text = .ok n' ∧ view03 n' = view03 n0 := by
-  apply edif_roundtrip_text n0 none none _ 0 1 2026 9 27 8 5 3 n0_WFNet n0_scalar
-  intro e he
-  have : (match toSExp [2026, 9, 27, 8, 5, 3] n0 with | .ok e => e.cleanB | .error _ => false) = true := by decide +kernel
-  rw [he] at this
-  exact this
+theorem n0_plain : NetPropsPlain n0 := by
+  intro l hl d hd i hi t ht
+  have : l = lib0 := by simpa [n0] using hl
+  subst this
+  have hd' : d = leaf ∨ d = top := by simpa [lib0] using hd
+  rcases hd' with rfl | rfl
+  · cases hi
+  · simp only [top, List.mem_singleton] at hi
+    subst hi
+    cases ht
+
+/-- … and from characters -/
+example : ∃ text n', composeE [2026, 9, 27, 8, 5, 3] n0 = .ok text ∧ readEdif text = .ok n' ∧ view03 n' = view03 n0 :=
+  edif_roundtrip_text n0 none none _ 0 1 2026 9 27 8 5 3 n0_WFNet n0_scalar n0_plain
 
 end Example
 
